@@ -32,8 +32,39 @@ def install_strings(x, ctx):
         r = VOpaque("lines", recv.z()); return r
     x.ext["str.splitlines"] = splitlines
     def join(x_, sep, els, st, n): raise Unsupported("join over a generator in string mode")
+    mapped = {}
+    def map_opaque(x_, it, var, elt, st, n):
+        """`[f(s) for s in text.splitlines()]`: f is executed ONCE on a generic line s (assumed of str.splitlines: a line contains no line break and is
+        a piece of the text); the result is an opaque mapped sequence that only `' '.join` consumes (rule in str_join)"""
+        if it.sort != "lines": return None
+        s_ = fresh("line", S)
+        x_.assume.append(AND(nolb(s_), z3.Contains(it.term, s_)))
+        n0 = len(x_.ghost.setdefault("repl_patterns", []))
+        st.env[var] = VStr(None, s_)
+        r = x_.ev(elt, st)
+        if not isinstance(r, VStr): raise Unsupported("mapped line is not a string")
+        key = fresh("mappedlines", S)
+        mapped[key.get_id()] = (it.term, s_, r.z(), list(x_.ghost["repl_patterns"][n0:]), st.pc)
+        return VOpaque("mappedlines", key)
+    x.ext["map_opaque"] = map_opaque
+    def entails(x_, pc, goal):
+        sv = z3.Solver(); sv.set("timeout", 5000)
+        sv.add(*x_.assume); sv.add(pc); sv.add(NOT(goal))
+        return sv.check() == z3.unsat
     def str_join(x_, recv, args, kwargs, st, n):
         a = args[0]
+        if isinstance(a, VOpaque) and a.sort == "mappedlines":
+            if recv.py != " ": raise Unsupported("lines joined with something else than a space")
+            text, s_, r, pats, pc = mapped[a.term.get_id()]
+            t = z3.Function("joinmapped", S, S, S)(text, r)
+            # map-then-join rule (assumed of python's join; each instance is justified by a solver query about the GENERIC line): pieces joined by
+            # single spaces contain no line break if no piece does, and do not contain a non-empty space-free pattern if no piece does (an
+            # occurrence can neither include a separator nor straddle one)
+            if entails(x_, pc, nolb(r)): x_.assume.append(nolb(t))
+            for p_ in pats:
+                if entails(x_, pc, AND(z3.Length(p_) > 0, NOT(z3.Contains(p_, z3.StringVal(" "))), NOT(z3.Contains(r, p_)))):
+                    x_.assume.append(NOT(z3.Contains(t, p_)))
+            return VStr(None, t)
         if isinstance(a, VOpaque) and a.sort == "lines":
             if recv.py != " ": raise Unsupported("lines joined with something else than a space")
             t = joinlines(a.term)
@@ -49,6 +80,7 @@ def install_strings(x, ctx):
         if name == "replace" and not (recv.py is not None and all(a.py is not None for a in args)):
             a, b = args[0].z(), args[1].z()
             t = replall(recv.z(), a, b)
+            x.ghost.setdefault("repl_patterns", []).append(a)
             # assumed contract of str.replace (all occurrences, left to right, non-overlapping): when the replacement is a single space and the
             # pattern is non-empty and contains no space, the pattern no longer occurs (an occurrence could neither include an inserted space nor
             # lie inside an unreplaced stretch).  With an EMPTY replacement occurrences can re-form ("**//".replace("*/", "") == "*/"): no guarantee.
